@@ -1642,14 +1642,14 @@ let content_matches pl a b =
                                                bind (op_close pl b) (fun _ ->
                                                  ret false))))))))))
 
-(** val create_md5 : plan -> unit m **)
+(** val create_md5 : plan -> role -> unit m **)
 
-let create_md5 pl =
-  bind (op_probe pl KFopenR RIn) (fun ok ->
+let create_md5 pl src =
+  bind (op_probe pl KFopenR src) (fun ok ->
     if negb ok
     then exit_ eX_SOFTWARE
-    else bind (op_read pl KFread RIn) (fun c ->
-           bind (op_simple pl KFclose RIn) (fun _ ->
+    else bind (op_read pl KFread src) (fun c ->
+           bind (op_simple pl KFclose src) (fun _ ->
              bind (op_fopen_w pl RMd5) (fun okw ->
                if negb okw
                then ret ()
@@ -1689,22 +1689,24 @@ let write_out pl md fmt pre orig =
                          (if md.in_place then op_unlink pl tmp else ret true)
                          (fun _ -> exit_ eX_IOERR)
                   else bind
-                         (if md.in_place
-                          then bind
-                                 (if md.if_changed
-                                  then ret false
-                                  else content_matches pl tmp target)
-                                 (fun same ->
-                                 if same
-                                 then bind (op_unlink pl tmp) (fun _ ->
-                                        ret ())
-                                 else bind (op_rename pl tmp target)
-                                        (fun okr ->
-                                        if okr then ret () else exit_ eX_IOERR))
+                         (if (&&) md.in_place (negb md.no_backup)
+                          then create_md5 pl tmp
                           else ret ()) (fun _ ->
                          bind
-                           (if (&&) md.in_place (negb md.no_backup)
-                            then create_md5 pl
+                           (if md.in_place
+                            then bind
+                                   (if md.if_changed
+                                    then ret false
+                                    else content_matches pl tmp target)
+                                   (fun same ->
+                                   if same
+                                   then bind (op_unlink pl tmp) (fun _ ->
+                                          ret ())
+                                   else bind (op_rename pl tmp target)
+                                          (fun okr ->
+                                          if okr
+                                          then ret ()
+                                          else exit_ eX_IOERR))
                             else ret ()) (fun _ ->
                            bind
                              (if md.keep_mtime
